@@ -559,7 +559,7 @@ def _private_merge(ctx, m, rep, cl, undo_independent_only=False):
         rep.ob(cl + ".rfc1918", "RFC_1918_NETWORKS", ok, "folds to %r; expected the networks 10/8, 172.16/12, 192.168/16" % (rfc,), "%s:%d" % (m.v4.module.relpath, m.v4.node.lineno))
     n_paths = 0
     for path in fp.paths:
-        if path.kind == "raise":
+        if path.kind == "raise" or not path.feasible():
             continue
         call = None
         for e, ls in path.calls():
